@@ -549,7 +549,7 @@ func (h *H) run(c *mon.Case, sc *scenario) (accepted bool) {
 	default: // error
 		ext := map[string]any{"error": herr.Error(), "server_bytes": hx(tr0)}
 		if !sc.errAllowed {
-			viol("valid-rejected/"+sc.class+"/"+planName(sc.plan)+"/"+sc.policyName, fmt.Sprintf("step-by-step client rejected: %v (virtual time %v, pauses %v, server bytes %s)", herr, elapsed, sc.plan.total(), hx(tr0)), ext)
+			viol("valid-rejected/"+sc.class+"/"+segClass(sc), fmt.Sprintf("step-by-step client rejected: %v (virtual time %v, pauses %v, server bytes %s)", herr, elapsed, sc.plan.total(), hx(tr0)), ext)
 		} else if !errorTranscriptOK(sc, tr0) {
 			viol("failure-reply-not-rfc/"+sc.class, fmt.Sprintf("after error %q the server had written %s: neither nothing nor the failure reply of stage %d..%d after the positive replies (expected method %#02x)", herr, hx(tr0), sc.fMin, sc.fMax, sc.mExp), ext)
 		} else {
@@ -642,11 +642,12 @@ func (h *H) run(c *mon.Case, sc *scenario) (accepted bool) {
 	return accepted
 }
 
-func planName(p *segPlan) string {
-	if p == nil {
-		return "whole"
+// segClass: was the client's byte stream delivered in one piece per message?
+func segClass(sc *scenario) string {
+	if sc.plan.maxSegs() < 2 && sc.policyName == "all" {
+		return "unsegmented"
 	}
-	return p.name
+	return "segmented"
 }
 
 func (h *H) distinct(sc *scenario) {
